@@ -5,7 +5,7 @@ From Coq Require Import ZArith List Bool Reals.
 Import ListNotations.
 From Osmo Require Import Base.DecModel C13.Common C13.Sqrt C13.SqrtProofs C13.SigFig C13.SigFigProofs
   C13.BinSearch C13.BinSearchProofs C13.Exp2 C13.Exp2Real C13.Exp2Proofs
-  C13.Log2 C13.Log2Proofs.
+  C13.Log2 C13.Log2Proofs C13.Pow C13.PowProofs Gen.C13_consts.
 Open Scope Z_scope.
 
 (* ---------- monotone square roots (integers only, axiom-free) ---------- *)
@@ -228,3 +228,51 @@ Example C13_log2_nonvacuous :
   bitlen (3 * P36) <= 1144 /\ log_base2 P36 = Ok 0 /\ log_base2 1 = Ok (-119589411415945044523331499461618046348) /\
   log_base2 0 = Err ELogDomain /\ custom_base_log (8 * P36) (2 * P36) = Ok (3 * P36) /\ custom_base_log 5 P36 = Err ELogBase.
 Proof. vm_compute. repeat split; discriminate. Qed.
+
+(* ---------- Pow / PowApprox ---------- *)
+
+(* the full statement for Pow - "fractional power to the documented power precision" on the documented domain 0 < base < 2 -
+   is FALSE of the faithful model (and of the implementation: finding F4): the series is stopped when the last added term
+   is below 10^-8, which bounds the remainder only for base >= 0.5 *)
+Definition C13_pow_full : Prop := C13_pow_full_statement.
+Theorem C13_pow_full_refuted : ~ C13_pow_full.
+Proof. exact pow_full_refuted. Qed.
+Print Assumptions C13_pow_full_refuted.
+
+(* "outside the domain the functions fail loudly instead of returning a wrong number" is false for exponents <= -1
+   (finding F9): Pow(0.5, -1) = 0 *)
+Theorem C13_pow_negative_exponent_refuted : ~ C13_pow_negative_exponent_statement.
+Proof. exact pow_negative_exponent_refuted. Qed.
+Print Assumptions C13_pow_negative_exponent_refuted.
+
+(* what IS proved about Pow (partial: no error bound for 0.5 <= base < 2 is proved in Coq - it would need the binomial
+   series identity and an accumulation bound for up to powIterationLimit rounded rounds; that range is covered by the
+   oracle against a 700-bit reference on every run, and by bit-exact correspondence of this model): *)
+Theorem C13_pow_domain_partial : forall base exp,
+  (base <= 0 -> pow base exp = Err EPowBaseLE0) /\ (2 * P18 <= base -> pow base exp = Err EPowBaseGE2) /\
+  (forall prec, base <= 0 -> pow_approx base exp prec = Err EPowBaseLE0).
+Proof.
+  intros base exp. split; [apply pow_base_nonpositive|split; [apply pow_base_ge_two|intros; apply pow_approx_base_nonpositive; assumption]].
+Qed.
+Print Assumptions C13_pow_domain_partial.
+
+(* the series loop stops by itself (precision reached, term rounded to zero, or the loud iteration-limit panic):
+   the model's fuel is never exhausted, for any argument *)
+Theorem C13_pow_series_terminates : forall exp x xneg prec st,
+  loop_pos (Z.to_pos pow_iteration_limit) (pow_step exp x xneg prec) (1, P18, P18, false) <> inl st.
+Proof. exact pow_series_never_out_of_fuel. Qed.
+Print Assumptions C13_pow_series_terminates.
+
+(* an exponent without fractional part: exactly the LegacyDec square-and-multiply power *)
+Theorem C13_pow_integer_exponent : forall base n, 0 < base < 2 * P18 -> 0 <= n < 2 ^ 63 ->
+  pow base (n * P18) = dc_power base n.
+Proof. exact pow_integer_exponent. Qed.
+Print Assumptions C13_pow_integer_exponent.
+
+Example C13_pow_nonvacuous :
+  pow (15 * 10 ^ 17) (15 * 10 ^ 17) = Ok 1837117307087383574 /\        (* 1.5^1.5 = 1.8371173070873836 *)
+  pow (10 ^ 15) (10 ^ 17) = Ok 501195897725914681 /\                    (* F4 witness *)
+  pow (5 * 10 ^ 17) (- P18) = Ok 0 /\                                   (* F9 witness *)
+  pow (2 * P18) P18 = Err EPowBaseGE2 /\ pow 0 P18 = Err EPowBaseLE0 /\
+  pow (15 * 10 ^ 17) (3 * P18) = dc_power (15 * 10 ^ 17) 3.
+Proof. vm_compute. repeat split. Qed.
